@@ -524,14 +524,36 @@ func (c *Ctx) c15W5(f *ircFacts) {
 		if !mentionsLoggedIn {
 			return true
 		}
-		ast.Inspect(ifs.Cond, func(m ast.Node) bool {
-			if be, ok := m.(*ast.BinaryExpr); ok && be.Op == token.NEQ {
-				if s, ok := astx.ConstString(info, be.Y); ok && s != "" {
-					pre[s] = true
+		collect := func(inf *types.Info, root ast.Node) {
+			ast.Inspect(root, func(m ast.Node) bool {
+				switch x := m.(type) {
+				case *ast.BinaryExpr:
+					if x.Op == token.NEQ || x.Op == token.EQL {
+						if s, ok := astx.ConstString(inf, x.Y); ok && s != "" {
+							pre[s] = true
+						}
+					}
+				case *ast.CaseClause:
+					for _, e := range x.List {
+						if s, ok := astx.ConstString(inf, e); ok && s != "" {
+							pre[s] = true
+						}
+					}
+				}
+				return true
+			})
+		}
+		collect(info, ifs.Cond)
+		// a predicate of the module applied to the command ("allowed before registration"): its constants
+		for _, call := range astx.Calls(ifs.Cond, false) {
+			if fn := astx.Callee(info, call); fn != nil {
+				if h := c.P.FuncOf(fn); h != nil && h.Body() != nil && h.Obj != nil {
+					if sig, ok := h.Obj.Type().(*types.Signature); ok && sig.Results().Len() == 1 && sig.Results().At(0).Type().String() == "bool" {
+						collect(h.Info(), h.Body())
+					}
 				}
 			}
-			return true
-		})
+		}
 		return true
 	})
 	if len(pre) < 3 {
